@@ -2,6 +2,7 @@
 (polymorphic over z3 terms and Fractions) that is (a) proved on every path with z3 over the reals,
 (b) evaluated on the natively compiled real code for counterexample replay, and (c) used to validate the symbolic
 executor itself against the native build on concrete inputs."""
+import os, sys
 import ctypes, random, time, struct, traceback
 from fractions import Fraction
 import z3
@@ -103,6 +104,8 @@ def _build_state(case, conc_inputs=None):
                 if kind == 'r':
                     v = Rat(conc_inputs[spec][0]) if conc_inputs is not None else Rat(var(spec))
                     st.mem[(a.name, off)] = v; vals[spec] = v; I[spec] = v
+                elif kind == 'c':      # concrete real field: spec = (name, Fraction)
+                    v = Rat(Fraction(spec[1])); st.mem[(a.name, off)] = v; I[spec[0]] = v
                 elif kind == 'i': st.mem[(a.name, off)] = spec[0]
                 elif kind == 'p': st.mem[(a.name, off)] = Ptr('opaque_' + a.name, 0)
             argv.append(Ptr(a.name, 0))
@@ -148,6 +151,7 @@ def run_native(lib, case, inputs):
             b = bytearray(a.nbytes)
             for off, kind, spec in a.fields:
                 if kind == 'r': b[off:off + case.esz] = struct.pack('<f' if case.T == 'f' else '<d', float(inputs[spec][0]))
+                elif kind == 'c': b[off:off + case.esz] = struct.pack('<f' if case.T == 'f' else '<d', float(spec[1]))
                 elif kind == 'i': b[off:off + spec[1]] = int(spec[0]).to_bytes(spec[1], 'little')
             cb = ctypes.create_string_buffer(bytes(b), a.nbytes); keep.append(cb); argv.append(ctypes.cast(cb, ctypes.c_void_p))
     fn = getattr(lib, case.func)
@@ -200,6 +204,7 @@ def run_case(case, module, real_so):
     try:
         for fs, rv in sym.run(case.func, argv, st):
             npaths += 1
+            if os.environ.get('VERIF_TRACE'): sys.stderr.write('[trace %s] path %d at %.1fs pc=%d exc=%s rv=%s queries=%d\n' % (case.name, npaths, time.time() - t0, len(fs.pc), fs.exc, str(rv)[:40], sym.queries))
             O = _outputs(case, fs, rv, bufs)
             X = Ctx(sym, fs)
             if fs.exc == 'DIVZERO':
@@ -209,9 +214,8 @@ def run_case(case, module, real_so):
                 cls = _claims(case, I, O, X)
             sym.instantiate_trig_axioms()
             if not witness:
-                w = z3.Solver(); w.set('timeout', 5000); w.add(*fs.pc); w.add(*sym.axioms)
                 q += 1
-                if w.check() == z3.sat: witness = True
+                if S.check_sat(list(fs.pc) + list(sym.axioms), 5000)[0] == z3.sat: witness = True
             for label, f in cls:
                 if isinstance(f, tuple) and f and f[0] == 'anyof':
                     # alternatives ordered from strongest to weakest (last one is the actual claim): any proved one suffices
@@ -220,8 +224,27 @@ def run_case(case, module, real_so):
                         if r == 'unsat': break
                 else:
                     r, m, dt = solve(fs.pc + X.extra, f, sym.axioms, case.timeout_ms, npre=npre); q += 1
+                if os.environ.get('VERIF_TRACE'): sys.stderr.write('[trace %s]   claim %r -> %s %.1fs\n' % (case.name, label[:50], r, dt))
                 if r == 'unsat': continue
                 if r == 'unknown':
+                    # the full path condition was not decided: models of the relaxed queries are candidate inputs; one that violates
+                    # the claim on the natively built real code is a genuine counterexample whichever path it takes
+                    hit = None
+                    for _, cm in sorted(S.solve.candidates, key=lambda x: -x[0])[:3]:
+                        try:
+                            cin = {}
+                            for nm, n in input_names(case):
+                                cin[nm] = [model_value(cm, z3.Real('%s_%d' % (nm, i) if n > 1 or any(isinstance(a, In) and (a.name == nm or a.name + '_p' == nm) for a in case.args) else nm)) for i in range(n)]
+                            cfree = {k: model_value(cm, v) for k, v in X.freevars.items()}
+                            conf, info = replay(case, lib, cin, cfree, label)
+                        except Exception:
+                            continue
+                        if conf:
+                            hit = {'path': npaths, 'claim': label, 'verdict': 'violated', 's': round(dt, 2), 'inputs': {k: [float(x) for x in v] for k, v in cin.items()},
+                                   'free': {k: float(v) for k, v in cfree.items()}, 'native': info, 'from': 'model of a relaxed query (premise subset), confirmed natively'}
+                            break
+                    if hit:
+                        sub.append(hit); verdict = 'violated'; model_out = hit; continue
                     if verdict == 'holds': verdict = 'unknown'
                     sub.append({'path': npaths, 'claim': label, 'verdict': 'unknown', 's': round(dt, 2)}); continue
                 # sat: candidate counterexample -> native replay
@@ -266,6 +289,12 @@ def replay(case, lib, inputs, free, label):
             elif isinstance(a, Raw):
                 for off, kind, spec in a.fields:
                     if kind == 'r': I[spec] = Rat(Fraction(float(inputs[spec][0])))
+                    elif kind == 'c': I[spec[0]] = Rat(Fraction(spec[1]))
+        if case.pre:
+            # the inputs actually passed to the real code (rounded to the element type) must satisfy the stated precondition
+            try: pre_ok = all((c is True) or (c is not False and not z3.is_false(z3.simplify(c))) for c in case.pre(I) if not isinstance(c, bool) or c is False)
+            except Exception: pre_ok = True
+            if not pre_ok: return False, {'outputs': 'rounded inputs violate the precondition', 'label': label}
         if any(v is None for k, vs in O.items() if isinstance(vs, list) for v in vs):
             return True, {'outputs': 'non-finite output from the real code', 'label': label}
         X = Ctx(None, None, model=free, conc=True); X.lib = lib; X.T = case.T
@@ -296,7 +325,7 @@ def validate_case(case, module, real_so, rng, n=None):
         for nm, k in input_names(case):
             inputs[nm] = [Fraction(rng.randint(-32, 32), 8) for _ in range(k)]
         if case.sample: inputs = case.sample(rng, inputs)
-        sym = Sym(module); sym.deadline = time.time() + 20
+        sym = Sym(module); sym.deadline = time.time() + 20; sym.approx_sqrt = True   # concrete validation run: irrational roots as doubles
         if case.setup: case.setup(sym)
         st, I, argv, bufs = _build_state(case, inputs)
         if case.pre:
